@@ -157,6 +157,12 @@ func sameNamePairs(prefix string) []SCase {
 		{"ref-target", J{"$ref": "#/$defs/RS"}, J{"$ref": "#/$defs/RI"}, v, v},
 		{"anyOf-branches", J{"anyOf": A{J{"type": "object", "properties": J{"a": J{"type": str}}, "required": A{"a"}}, J{"type": "object", "properties": J{"b": J{"type": in}}, "required": A{"b"}}}},
 			J{"anyOf": A{J{"type": "object", "properties": J{"a": J{"type": in}}, "required": A{"a"}}, J{"type": "object", "properties": J{"b": J{"type": in}}, "required": A{"b"}}}}, v, v},
+		{"allOf-branches", J{"allOf": A{J{"type": "object", "properties": J{"a": J{"type": str}}, "required": A{"a"}}, J{"type": "object", "properties": J{"b": J{"type": in}}}}},
+			J{"allOf": A{J{"type": "object", "properties": J{"a": J{"type": str}}}, J{"type": "object", "properties": J{"b": J{"type": in}}, "required": A{"b"}}}}, v, v},
+		{"type", J{"type": str}, J{"type": in}, v, v},
+		{"nested-property-type", J{"type": "object", "properties": J{"a": J{"type": str}}}, J{"type": "object", "properties": J{"a": J{"type": in}}}, v, v},
+		{"nested-required", J{"type": "object", "properties": J{"a": J{"type": str}}, "required": A{"a"}}, J{"type": "object", "properties": J{"a": J{"type": str}}}, v, v},
+		{"additionalProperties-type", J{"type": "object", "additionalProperties": J{"type": str}}, J{"type": "object", "additionalProperties": J{"type": in}}, v, v},
 		{"items-ref-target", J{"type": arr, "items": J{"$ref": "#/$defs/RS"}}, J{"type": arr, "items": J{"$ref": "#/$defs/RI"}}, v, v},
 	}
 	var out []SCase
